@@ -372,6 +372,50 @@ def _translate_bound(body, x):
     return val, z3.Implies(reached_cast, cast_ok)
 
 
+def p_range(twin=False, timeout=120, exclude=(), only=None, replay=None):
+    """the CDXtract preset has no clamp: FirFilter.process ends in a plain .astype(int16), which WRAPS for results outside the int16 range.
+    z3 (linear real arithmetic over the exact rational values of the live taps) looks for 8 int16 inputs whose filtered value leaves
+    (-32769, 32768) - the open interval that truncation maps into int16.  Rounding of the float64 accumulation (< 1e-9 here) is not modelled."""
+    import time
+    from fractions import Fraction
+    import numpy as np
+    import smpl_extract.filters.common as common
+    t0 = time.time()
+    live = common.CdXtractRolandDeemphFilter()
+    taps = [Fraction(float(v)) for v in live.h]
+    xs = [z3.Int("x%d" % i) for i in range(len(taps))]
+    sol = z3.Solver()
+    sol.set("timeout", int(timeout * 1000))
+    for x in xs:
+        sol.add(x >= -32768, x <= 32767)
+    acc = z3.Sum([z3.Q(t.numerator, t.denominator) * z3.ToReal(x) for t, x in zip(taps, xs)])
+    viol = z3.Or(acc >= 32768, acc <= -32769)
+    sol.add(z3.Not(viol) if twin else viol)
+    r = sol.check()
+    out = {"paths": 1, "queries": 1, "solver_s": round(time.time() - t0, 3), "messages": [], "wall_s": round(time.time() - t0, 2)}
+    if str(r) == "unknown":
+        out.update(verdict="inconclusive")
+        return out
+    if str(r) == "unsat":
+        out.update(verdict="discharged")
+        return out
+    m = sol.model()
+    window = [m.eval(x, model_completion=True).as_long() for x in xs]
+    # replay on the real (compiled) preset: feed the window as the most recent samples (np.convolve pairs tap k with the sample k steps back)
+    sig = np.asarray(list(reversed(window)), dtype=np.int16)
+    f = common.CdXtractRolandDeemphFilter()
+    y = np.concatenate([f.process(np.concatenate([sig, sig])), f.get_remaining()])
+    exact = sum(t * x for t, x in zip(taps, window))
+    wrapped = not (-32769 < exact < 32768)
+    sign_flip = bool(((y.astype(np.int64) > 0) != (exact > 0)).any()) if wrapped else False
+    cex = {"window_newest_first": window, "exact_value": float(exact), "output": [int(v) for v in y]}
+    if twin:
+        out.update(verdict="refuted", reproduced=not wrapped, cex=cex, cex_message="witness")
+    else:
+        out.update(verdict="refuted", reproduced=bool(wrapped and sign_flip), cex=cex, cex_message=repr(cex)[:500], replay={"reproduced": bool(wrapped and sign_flip)})
+    return out
+
+
 def p_sat(which="fir", twin=False, timeout=120, exclude=(), only=None, replay=None):
     import time
     F = z3.Float64()
@@ -455,6 +499,9 @@ def obligations(tier, seed):
     obs.append(ob("C19.preset/cdxtract", "h_preset", [], "2 or 3 block lengths, output index, tap", "taps (8) and delay offset as the live preset constructor passes them, int16 input; non-final blocks 7..12, final block 1..12"))
     obs.append(ob("C19.reset", "h_reset", [], "taps, delay, block lengths, output index, tap", "N <= 8, blocks N-1..12"))
     for which in ("fir", "iir"):
+        if which == "fir":
+            obs.append(dict(name="C19.range/cdxtract", engine="P", module="vf.props.c19", func="p_range", params={}, timeout=120, runs=RUNS,
+                            sym="8 int16 samples in the filter window", bound="all int16 windows; exact rational taps of the live preset (float rounding < 1e-9 not modelled)", stubs=[]))
         obs.append(dict(name=f"C19.sat/{which}", engine="P", module="vf.props.c19", func="p_sat", params={"which": which}, timeout=120,
                         runs=[], sym="any non-NaN double", bound="all binary64 values except NaN", stubs=[".pyx text mini-translator"]))
     return obs
